@@ -19,7 +19,7 @@ for _m in (ep, ep_solo):
     # a handler that uses a name its module does not import has to fail here as it does for a user
     if hasattr(_m, "structure_from_dict"):
         _m.structure_from_dict = conv.structure_from_dict
-from cl05.models import Circle, Item, Other, Square  # noqa: E402
+from cl05.models import Circle, Item, Labels, Other, Profile, Square  # noqa: E402
 
 
 class Resp:
@@ -99,7 +99,8 @@ def _item(i, has_name, name, n_tags):
 
 for _n, _r in [("get_item", Resp(200, {"id": 1, "displayName": "n", "tags": ["t"]})), ("list_items", Resp(200, [{"id": 1}])), ("get_alias", Resp(200, [{"id": 1}])),
                ("upsert_item", Resp(201, {"code": "c"})), ("upsert_reversed", Resp(201, {"code": "c"})), ("get_flavours", Resp(200, {"code": "c"}, ctype="application/hal+json")), ("get_vendor_item", Resp(200, {"id": 1})), ("get_with_default", Resp(200, {"id": 1})), ("get_shape", Resp(200, {"r": 1})),
-               ("get_shape", Resp(200, {"side": 1}))]:
+               ("get_shape", Resp(200, {"side": 1})), ("get_label_sets", Resp(200, [{"a": "b"}])), ("get_labels", Resp(200, {"a": "b"})), ("get_profile", Resp(200, {"nick": "n"})),
+               ("get_maybe_items", Resp(200, [{"id": 1}]))]:
     try:
         call(_n, _r)
     except Exception:
@@ -141,6 +142,63 @@ def tw_list_and_alias(alias: bool, n: int, i: int, has_name: bool, name: str) ->
     post: _
     """
     call("get_alias" if alias else "list_items", Resp(200, []))
+    return False
+
+
+MAP_KEYS = ["a", "x-y", ""]
+
+
+def ob_map_objects(listed: bool, n: int, ki: int, v: str) -> bool:
+    """
+    pre: 0 <= n <= 2 and 0 <= ki <= 2 and len(v) <= 2
+    post: _
+    """
+    # an object schema without declared properties is a class of its own: the body comes back as instances of it
+    docs = [({MAP_KEYS[ki]: v} if j == 0 else {}) for j in range(n)]
+    if listed:
+        out, _ = call("get_label_sets", Resp(200, [dict(d) for d in docs]))
+        return isinstance(out, list) and len(out) == n and all(isinstance(x, Labels) for x in out) and [U(x) for x in out] == docs
+    doc = docs[0] if docs else {}
+    out, _ = call("get_labels", Resp(200, dict(doc)))
+    return isinstance(out, Labels) and U(out) == doc
+
+
+def tw_map_objects(listed: bool, n: int, ki: int, v: str) -> bool:
+    """
+    pre: 0 <= n <= 2 and 0 <= ki <= 2 and len(v) <= 2
+    post: _
+    """
+    call("get_label_sets", Resp(200, [{MAP_KEYS[ki]: v}]))
+    return False
+
+
+def ob_nullable_bodies(which: int, has_nick: bool, nick: str, n: int, i: int) -> bool:
+    """
+    pre: 0 <= which <= 4 and len(nick) <= 1 and 0 <= n <= 2
+    post: _
+    """
+    # a nullable body may be null (-> None); an EMPTY object or array is not null
+    if which == 0:
+        return call("get_profile", Resp(200, None))[0] is None
+    if which == 1:
+        return call("get_profile", Resp(204, _NOJSON))[0] is None
+    if which == 2:
+        doc = {"nick": nick} if has_nick else {}
+        out, _ = call("get_profile", Resp(200, dict(doc)))
+        return isinstance(out, Profile) and _norm(U(out)) == _norm(doc)
+    if which == 3:
+        return call("get_maybe_items", Resp(200, None))[0] is None
+    docs = [{"id": i + j} for j in range(n)]
+    out, _ = call("get_maybe_items", Resp(200, [dict(d) for d in docs]))
+    return isinstance(out, list) and len(out) == n and all(isinstance(x, Item) for x in out) and [_norm(U(x)) for x in out] == docs
+
+
+def tw_nullable_bodies(which: int, has_nick: bool, nick: str, n: int, i: int) -> bool:
+    """
+    pre: 0 <= which <= 4 and len(nick) <= 1 and 0 <= n <= 2
+    post: _
+    """
+    call("get_profile", Resp(200, {}))
     return False
 
 
